@@ -201,6 +201,18 @@ def run(ctx):
         r, w = da.summary(name)
         ctx.check(not r, 'C11.R1', 'KmipEngine.%s|reads-transient' % name, m.site(m.methods[name], m.methods[name]),
                   'public method reads no transient field', 'public method outside the request prologue reads transient fields %s' % sorted(r))
+    # ---------------- C11.R2 (lifted from C10)
+    ctx.rule('C11.R2', "the per-request prologue and everything that reads the per-request fields run inside one critical section (lifted from C10.R1/R2): otherwise another client's header overwrites identity, version, attribute policy and placeholder between two items of a batch")
+    from ..report import Ctx as _LCtx_C11_R2
+    from . import c10 as _lsrc_C11_R2
+    _sub_C11_R2 = _LCtx_C11_R2('C10', 'quick', ctx.src, 0)
+    from ..report import run_lifted as _run_lifted
+    _run_lifted(ctx, _lsrc_C11_R2, _sub_C11_R2)
+    _lifted_C11_R2 = [f for f in _sub_C11_R2.findings if f.rule in ('C10.R1', 'C10.R2')]
+    for f in _lifted_C11_R2:
+        ctx.fail('C11.R2', f.key, f.site, f.message)
+    if not _lifted_C11_R2:
+        ctx.ok('C11.R2', 'lifted from C10', 'process_request, including its prologue, is synchronised')
     ctx.not_decided += ['equality of the probe response with a fresh engine (value-level)',
                         'state kept inside third-party objects (SQLAlchemy identity map is per _process_batch session)']
     ctx.assumptions += ['KmipEngine methods are not rebound at run time; decorators are the two class-level ones',
